@@ -85,6 +85,34 @@ func c10Shapes(r *rand.Rand) *Node {
 		}
 		return constCustom()
 	}
+	// two calls of one operator whose constant arguments print alike but differ in type: the first succeeds, the second fails
+	alike := func() (*Node, *Node) {
+		switch r.Intn(5) {
+		case 0:
+			return Op("=", TBool, Op("+", TInt, Lit(int64(1)), Lit(int64(2))), k()), Op("=", TBool, Op("+", TInt, Lit("1"), Lit(int64(2))), k())
+		case 1:
+			return Op("in", TBool, Lit(int64(2)), Lit([]int64{1, 2, 3})), Op("in", TBool, Lit(int64(2)), Lit([]string{"1", "2", "3"}))
+		case 2:
+			return Op(">", TBool, Lit(int64(3)), Lit(int64(2))), Op(">", TBool, Lit(int64(3)), Lit("2"))
+		case 3:
+			return Op("spos", TBool, Lit(int64(1))), Op("spos", TBool, Lit("1"))
+		default:
+			return Op("overlap", TBool, Lit([]int64{1, 2}), Lit([]int64{2})), Op("overlap", TBool, Lit([]int64{1, 2}), Lit([]string{"2"}))
+		}
+	}
+	if r.Intn(6) == 0 {
+		ok, bad := alike()
+		switch r.Intn(4) {
+		case 0:
+			return and(b(), ok, bad)
+		case 1:
+			return or(and(b(), ok), and(b(), bad))
+		case 2:
+			return If(b(), ok, bad)
+		default:
+			return and(bad, b(), ok)
+		}
+	}
 	switch r.Intn(12) {
 	case 0:
 		return and(Lit(false), x())
@@ -377,6 +405,16 @@ func c10Run(w *W, idx int) {
 						break
 					}
 				}
+				// plain evaluation reaches a failing built-in / operator application but the engine returns a value:
+				// legitimate only when an enclosing and/or is decided by a constant operand (it may absorb the failure)
+				if o&OptRO == 0 && out.Err == nil && isBuiltinErr(wantErr) && senv.FailNode != nil {
+					if !insideDecidedAndOr(tree, senv.FailNode, declared, o&OptCF != 0) {
+						w.Fail("failing-subexpression-did-not-surface", "plain evaluation fails at %s (%v) and no enclosing and/or is decided by a constant operand, but Eval returned %s\n%s\ndump: %s",
+							firstN(senv.FailNode.Prefix(), 200), wantErr, out, describeCase(src, cfg, b), oneLine(v.Dump))
+						break
+					}
+					w.Inc("failures_absorbed_by_constant_andor")
+				}
 			}
 			// coverage: reached / unreached
 			reachedCustomConst, reachedFail := false, wantErr != nil && !isSentinelUnbound(wantErr)
@@ -418,3 +456,36 @@ func refFoldConstOnly(n *Node) (interface{}, bool) {
 
 var _ = sort.Strings
 var _ = strings.Join
+
+// insideDecidedAndOr: is target inside an and/or of tree that the reference folder decides by a constant operand?
+func insideDecidedAndOr(tree, target *Node, declared map[string]bool, folding bool) bool {
+	if !folding {
+		return false
+	}
+	var path []*Node
+	var find func(n *Node) bool
+	find = func(n *Node) bool {
+		path = append(path, n)
+		if n == target {
+			return true
+		}
+		for _, c := range n.Ch {
+			if find(c) {
+				return true
+			}
+		}
+		path = path[:len(path)-1]
+		return false
+	}
+	if !find(tree) {
+		return true // not found: do not judge
+	}
+	for _, a := range path[:len(path)-1] {
+		if a.IsAndOr() {
+			if _, decided := refFold(a, declared); decided {
+				return true
+			}
+		}
+	}
+	return false
+}
